@@ -14,7 +14,7 @@ import (
 // Witness of the C37 finding fixed by "fix: ast/togo: keep type parameters and multi-index instantiations":
 // converting the declarations of a Go file to the XGo tree and back must give declarations with the same printed
 // headers, also for generic functions and types and for instantiations with several type arguments.
-func TestVerifWitnessGenericsRoundTrip(t *testing.T) {
+func TestGovcWitnessGenericsRoundTrip(t *testing.T) {
 	const src = `package p
 
 func Map[T, U any](xs []T, f func(T))
